@@ -12,8 +12,8 @@ def builds(tier):
 def run(chk):
     asan, dbg = vlib.build_many(builds(chk.tier))
     T = chk.thorough()
-    n_asan = 40000 if T else 2000
-    n_dbg = 20000 if T else 1000
+    n_asan = 24000 if T else 2000
+    n_dbg = 12000 if T else 1000
     # a sanitizer crash ends one part of one history; the shard continues behind it
     chk.absorb(vlib.run_sharded(asan, n_asan * PARTS, chk.seed, chk.tier, tag='c04a', max_restarts=1000000),
                'histories x capacity sweep x {no,yes,internal,CallbackBuffer} (asan, NDEBUG)')
